@@ -350,6 +350,10 @@ var bytesUnits = map[string]float64{
 
 var bytesRe = regexp.MustCompile(`^([0-9]+(?:\.[0-9]+)?) ?([A-Za-z]*)$`)
 
+// oddBytesRe: digits, dots and commas in front of an optional unit - but not in the one shape
+// bytesRe fixes.
+var oddBytesRe = regexp.MustCompile(`^[0-9.,]+ *[A-Za-z]*$`)
+
 // ParseBytes is the harness's own SI/IEC byte-size table. ok=false means "not a byte size".
 func ParseBytes(s string) (uint64, bool) {
 	m := bytesRe.FindStringSubmatch(s)
@@ -449,6 +453,11 @@ func evalPred(p *gen.Pred, s *state) (keep bool, err error) {
 		return cmpOrdered(p.Op, int64(d), p.Dur)
 	case "bytes":
 		b, ok := ParseBytes(v)
+		if !ok && oddBytesRe.MatchString(v) {
+			// ".5", "5.", "1,000", "1.2.3KB": whether such a spelling is a byte size is up to the
+			// library the engine uses; the statement does not say, the model does not decide.
+			return false, &Unsupported{"byte size in an unusual spelling"}
+		}
 		if !ok {
 			s.setError()
 			return true, nil
